@@ -39,11 +39,13 @@ NUMPY_ONLY = {"rg", "gyration", "moments", "com", "cog", "inertia", "density"}
 def strategy(draw, tier="quick"):
     case = {"system": draw(st.sampled_from(["protein", "protein", "water"])), "nf": draw(st.integers(12, 20 if tier == "quick" else 40)),
             "seed": draw(st.integers(0, 2 ** 31)), "noise": draw(st.sampled_from([0.0, 0.005, 0.03])),
-            "cell": draw(st.sampled_from(["tric-vary", "ortho", "none"]))}
+            "cell": draw(st.sampled_from(["tric-vary", "ortho", "none", "ortho-then-tric", "tric-then-ortho"]))}
     if draw(st.integers(0, 3)) == 0:
         # a long trajectory: more frames than any internal block / chunk size is likely to be (256, 512), per-frame varying cell,
         # molecules wrapped atom by atom; single frames are taken around the block boundaries
-        case.update(long=True, nf=draw(st.sampled_from([300, 520, 700])), cell=draw(st.sampled_from(["tric-vary", "ortho"])))
+        case.update(long=True, nf=draw(st.sampled_from([300, 520, 700])), cell=draw(st.sampled_from(["tric-vary", "ortho", "ortho-then-tric"])))
+    elif case["cell"] != "none":
+        case["wrap"] = draw(st.booleans())     # every atom wrapped into the cell on its own (bonds cross the faces)
     return case
 
 
@@ -72,9 +74,12 @@ def build(case):
     if case["cell"] != "none":
         g = (lambda f: f % 97) if case.get("long") else (lambda f: f)
         L = np.array([[5.0 + 0.02 * g(f), 5.5, 6.0 + 0.01 * g(f)] for f in range(nf)], dtype=np.float32)
-        A = np.array([[90.0, 90.0, 90.0] if case["cell"] == "ortho" else [75.0 + 0.1 * g(f), 85.0, 100.0] for f in range(nf)], dtype=np.float32)
+        def rect(f):
+            # the shape of the cell may change along the trajectory: rectangular first frame(s), skewed later, or the reverse
+            return {"ortho": True, "ortho-then-tric": f < 2, "tric-then-ortho": f >= nf - 2}.get(case["cell"], False)
+        A = np.array([[90.0, 90.0, 90.0] if rect(f) else [75.0 + 0.1 * g(f), 85.0, 100.0] for f in range(nf)], dtype=np.float32)
         t.unitcell_lengths, t.unitcell_angles = L, A
-        if case.get("long"):
+        if case.get("long") or case.get("wrap"):
             # every atom wrapped into its frame's cell on its own: bonds, angles and torsions cross the periodic boundary
             H = t.unitcell_vectors.astype(np.float64)
             x = t.xyz.astype(np.float64) - 2.5          # centred on the cell corner, so that it straddles three faces
